@@ -1,17 +1,32 @@
-(* Properties_C20.v — statements only (proof scripts: C20_Proofs.v; model: ObjModel.v, ObjResource.v).
+(* Properties_C20.v — statements only (proof scripts: C20_Proofs.v, C20_Invariant.v; model: ObjModel.v, ObjResource.v).
 
-   WHAT IS PROVED for every state / oracle / history (unbounded), and what is NOT:
-   proved   C20_tree_is_fixed, C20_clear_empties, C20_failed_op (all failing paths except write_key's own allocation
-            failure), C20_no_abandon_read, C20_no_abandon_fit, C20_moved_from_empty_ctor / _assign;
-            C20_refuted_* : concrete histories on which the UNCHANGED tree's model violates the property;
-            C20_fixed_examples: the same histories are clean with the fixes.
-   NOT proved (stated here, tested on every case of every run by the model-side checks of tools/props/C20.py):
-     C20_invariant : forall ops F, Inv (run_world cfg_fixed F ops)       (consistent, no Unset/Dangling, not crashed, errs = [])
-     C20_balanced  : forall ops F, all objects destroyed -> balanced (rev (trace ...)) /\ lost = []
-     Inv s -> safe cfg_fixed ... = true                                   (memory-safety of every member from Inv)
-   The induction over programs with loops (read_fits' key and knot loops) was not finished in the time available. *)
+   WHAT IS PROVED for every state / oracle / history (unbounded):
+     C20_tree_is_fixed, C20_clear_empties, C20_failed_op (all failing paths except write_key's own allocation
+     failure), C20_no_abandon_read, C20_no_abandon_fit, C20_moved_from_empty_ctor / _assign;
+     C20_refuted_* : concrete histories on which the UNCHANGED tree's model violates the property;
+     C20_fixed_examples: the same histories are clean with the fixes.
+   and, for EVERY operation history, EVERY allocation-failure oracle F : nat -> bool and EVERY I/O oracle
+   (the phase at which a read fails, whether a write / the fitter fails are arguments of the operations):
+     C20_invariant      : Forall (wf_op kl) ops -> Inv kl (run_world cfg_fixed F ops)
+     C20_step_preserves : Inv kl w -> wf_op kl x -> Inv kl (fst (step ...)) /\ outcome <> UB      (the inductive step)
+     C20_never_ub       : no operation of a history is undefined behaviour, the world never crashes
+     C20_safe           : Inv kl w -> safe cfg_fixed o other x = true     (every member is safe_to_call in every reachable state)
+     C20_clean          : at every moment errs = [], lost = [], strict replay of the trace = live heap
+     C20_balanced       : all objects destroyed -> balanced (rev trace) /\ hp = [] /\ lost = [] /\ errs = []
+     C20_inv_objects    : what Inv says about one object, in the model's own boolean predicates
+   Inv = four object slots, not crashed, per object: no Unset/Dangling pointer, every owned block has exactly the size the
+   code computes when it releases it, nothing outside what clear() releases, aux table complete, an empty table owns no
+   table array and a populated one owns all of them (incl. extents); globally: the live heap is EXACTLY the disjoint union
+   of what the live objects own (no aliasing between or inside objects, no leak), no allocator error, nothing lost, block
+   ids fresh, and the strict replay of the event trace yields the live heap.
+   SIDE CONDITIONS (wf_op; each one is NEEDED on the model, see C20_wf_needed_*; none restricts the code):
+     the op names one of the model's 4 object slots; a file that passes the dimension check has ndim >= 1 (fitsio.h:193
+     throws otherwise = phase PDim) and naxes[] has ndim entries; a fit that passes fit.h:26-67 has ndim >= 1 and as many
+     knot vectors as orders; the byte count of a key string is a function of the key (kl).
+   Still NOT proved: C20_failed_op for write_key's own allocation failure in the `same object` form (the invariant, safety
+   and leak-freedom of that path ARE covered by C20_invariant: write_key_ok handles all four fault positions). *)
 From Coq Require Import List Arith Bool.
-From PS Require Import ObjResource ObjModel C20_Proofs Generated_objfixes.
+From PS Require Import ObjResource ObjModel C20_Proofs C20_Invariant Generated_objfixes.
 Import ListNotations.
 
 (* the working tree contains every proposed fix; the theorems below are about cfg_fixed *)
@@ -88,6 +103,79 @@ Theorem C20_fixed_examples :
   /\ clean cfg_fixed no_fault h_read = true.
 Proof. exact fixed_clean_examples. Qed.
 
+(* ---- the global invariant: every history, every allocation-failure oracle, every I/O oracle ---- *)
+Theorem C20_invariant : forall kl ops F, Forall (wf_op kl) ops -> Inv kl (run_world cfg_fixed F ops).
+Proof. exact invariant_reachable. Qed.
+
+(* the inductive step, for users of cpp_step (C18): any operation from any state satisfying Inv *)
+Theorem C20_step_preserves : forall kl F w x, Inv kl w -> wf_op kl x ->
+  Inv kl (fst (step cfg_fixed F w x)) /\ snd (step cfg_fixed F w x) <> UB.
+Proof. exact step_Inv. Qed.
+
+Theorem C20_never_ub : forall kl ops F, Forall (wf_op kl) ops ->
+  crashed (run_world cfg_fixed F ops) = false /\ ~ In UB (snd (run cfg_fixed F world0 ops)).
+Proof. exact never_ub. Qed.
+
+(* every public operation is memory-safe (safe_to_call) in every state satisfying Inv: o is the target object,
+   `other` the second operand of == / move assignment (any live object) *)
+Theorem C20_safe : forall kl w x o other, Inv kl w -> get_obj w (target x) = Some o ->
+  (forall o2, other = Some o2 -> exists k, get_obj w k = Some o2) -> safe cfg_fixed o other x = true.
+Proof. exact safe_from_Inv. Qed.
+
+Theorem C20_clean : forall kl ops F, Forall (wf_op kl) ops ->
+  errs (wm (run_world cfg_fixed F ops)) = [] /\ lost (wm (run_world cfg_fixed F ops)) = []
+  /\ replay (rev (trace (wm (run_world cfg_fixed F ops)))) [] = Some (hp (wm (run_world cfg_fixed F ops))).
+Proof. exact clean_at_every_moment. Qed.
+
+(* once every object has been destroyed the allocation trace is balanced: every block obtained was returned exactly
+   once with its size, nothing else was ever released, nothing is live, nothing was lost *)
+Theorem C20_balanced : forall kl ops F, Forall (wf_op kl) ops -> all_gone (run_world cfg_fixed F ops) ->
+  balanced (rev (trace (wm (run_world cfg_fixed F ops)))) /\ hp (wm (run_world cfg_fixed F ops)) = []
+  /\ lost (wm (run_world cfg_fixed F ops)) = [] /\ errs (wm (run_world cfg_fixed F ops)) = [].
+Proof. exact balanced_after_history. Qed.
+
+Theorem C20_inv_objects : forall kl w j o, Inv kl w -> get_obj w j = Some o ->
+  no_garbage o = true /\ aux_ok o = true /\ clear_safe o = true
+  /\ (ndim o = 0 -> forall f, is_aux_field f = false -> get o f = Null)
+  /\ (ndim o <> 0 -> built o = true /\ has_extents o = true)
+  /\ (forall f id b, get o f = Owned id b -> b = claim o f /\ lookup id (hp (wm w)) = Some b).
+Proof. exact Inv_objects. Qed.
+
+(* each side condition of wf_op is needed ON THE MODEL (its inputs are totalised; the code rejects such inputs) *)
+Theorem C20_wf_needed_ndim0 : lost (wm (run_world cfg_fixed no_fault [ONew 0; ORead 0 file0; ORead 0 file0])) <> [].
+Proof. exact wf_needed_ndim0. Qed.
+Theorem C20_wf_needed_slot : hp (wm (run_world cfg_fixed no_fault [ONewRead 7 fileA])) <> [].
+Proof. exact wf_needed_slot. Qed.
+Theorem C20_wf_needed_keylen :
+  errs (wm (run_world cfg_fixed no_fault [ONew 0; OWriteKey 0 false key2; OWriteKey 0 false {| akey := 2; aklen := 9; avlen := 3 |}; ODestroy 0])) <> [].
+Proof. exact wf_needed_keylen. Qed.
+
+(* the hypotheses are satisfiable on a non-trivial history (two objects; read, new key, replaced key, move assignment that
+   destroys a populated table, convolution, permutation, a read and a reading constructor that fail at a knot vector, ==):
+   the invariant holds in the state it reaches, with and without an injected allocation failure; that state is not trivial *)
+Example C20_invariant_nonvacuous :
+  Forall (wf_op kl5) h_example
+  /\ Inv kl5 (run_world cfg_fixed no_fault h_example) /\ Inv kl5 (run_world cfg_fixed (fault_at 30) h_example)
+  /\ (exists o, get_obj (run_world cfg_fixed no_fault h_example) 1 = Some o /\ ndim o = 2 /\ naux o = 3 /\ orders o = [1; 3] /\ length (slots o) = 21)
+  /\ length (hp (wm (run_world cfg_fixed no_fault h_example))) = 21 /\ nalloc (wm (run_world cfg_fixed no_fault h_example)) = 66
+  /\ snd (run cfg_fixed (fault_at 30) world0 h_example) = [Ok; Ok; Ok; Ok; Ok; Failed RAlloc; Ok; Ok; Ok; Failed RInput; Failed RInput; Ok].
+Proof.
+  split; [exact h_example_wf|]. split; [apply invariant_reachable; exact h_example_wf|].
+  split; [apply invariant_reachable; exact h_example_wf|].
+  split; [eexists; vm_compute; repeat split|]. vm_compute. repeat split.
+Qed.
+Example C20_balanced_nonvacuous :
+  Forall (wf_op kl5) (h_example ++ [ODestroy 0; ODestroy 1])
+  /\ all_gone (run_world cfg_fixed (fault_at 30) (h_example ++ [ODestroy 0; ODestroy 1]))
+  /\ length (trace (wm (run_world cfg_fixed (fault_at 30) (h_example ++ [ODestroy 0; ODestroy 1])))) = 116.
+Proof.
+  split; [exact h_example_wf_destroy|]. split; [apply all_gone_4; vm_compute; reflexivity|]. vm_compute. reflexivity.
+Qed.
+Example C20_safe_nonvacuous :
+  exists o, get_obj (run_world cfg_fixed no_fault h_example) (target (OConvolve 1 1 3)) = Some o
+            /\ safe cfg_fixed o None (OConvolve 1 1 3) = true /\ ndim o = 2.
+Proof. eexists. vm_compute. repeat split. Qed.
+
 (* hypotheses of C20_failed_op are satisfiable on a non-trivial state: a truncated read into a live empty object fails *)
 Example C20_failed_op_nonvacuous :
   exists w', step cfg_fixed no_fault (run_world cfg_fixed no_fault [ONew 0]) (ORead 0 fileT) = (w', Failed RInput)
@@ -117,3 +205,13 @@ Print Assumptions C20_refuted_move_assign_source.
 Print Assumptions C20_refuted_aux_value_size.
 Print Assumptions C20_refuted_reading_ctor_leaks.
 Print Assumptions C20_fixed_examples.
+Print Assumptions C20_invariant.
+Print Assumptions C20_step_preserves.
+Print Assumptions C20_never_ub.
+Print Assumptions C20_safe.
+Print Assumptions C20_clean.
+Print Assumptions C20_balanced.
+Print Assumptions C20_inv_objects.
+Print Assumptions C20_wf_needed_ndim0.
+Print Assumptions C20_wf_needed_slot.
+Print Assumptions C20_wf_needed_keylen.
